@@ -22,7 +22,7 @@ def unsqueeze_right(x: torch.Tensor, n: int) -> torch.Tensor:
     -------
     unsqueezed tensor (view)
     """
-    return x.reshape(*x.shape, *(n * (1,)))
+    return x.reshape((*x.shape, *(n * (1,))))
 
 
 def unsqueeze_left(x: torch.Tensor, n: int) -> torch.Tensor:
@@ -43,7 +43,7 @@ def unsqueeze_left(x: torch.Tensor, n: int) -> torch.Tensor:
     -------
     unsqueezed tensor (view)
     """
-    return x.reshape(*(n * (1,)), *x.shape)
+    return x.reshape((*(n * (1,)), *x.shape))
 
 
 def broadcast_right(*x: torch.Tensor) -> tuple[torch.Tensor, ...]:
